@@ -93,6 +93,8 @@ func c16Pinned(name string) ast.Schemas {
 	switch name {
 	case "dangling":
 		s.AddObject(ast.NewObject("p", "D", ast.NewRef("p", "Missing")))
+	case "alias-cycle":
+		s.AddObject(ast.NewObject("p", "A", ast.NewRef("p", "A")))
 	case "optional-const-ref":
 		k := ast.String()
 		k.Scalar.Value = "x"
